@@ -37,7 +37,7 @@ func runC01(ctx *Ctx) {
 		a := refamf.New(acfg, ch, codec)
 		res := n2.Run(n2.Opts{YAML: emu.YAML(), AMF: a})
 		cs := "registration: " + c.Describe()
-		out := n2judge(r, cs, res, a, func(u *refamf.UE) string { return "REGISTERED/S_NONE" }, nue, c.Picks)
+		out := n2judge(r, cs, res, a, func(u *refamf.UE) string { return "REGISTERED/S_NONE/service-requests=0" }, nue, c.Picks)
 		for _, u := range a.UEs() {
 			if out[:2] == "ok" && u.ULCount() != 2 {
 				r.Violate("registration/uplink-count", cs, fmt.Sprintf("%s used %d protected uplink messages, expected 2 (Security Mode Complete, Registration Complete)", u.Supi, u.ULCount()), c.Picks)
